@@ -88,7 +88,7 @@ def _identtr(x, latent, **k):
     return latent
 
 
-def ebv_problem(kind, ebv, nobj=1, ndecn=None, con=False, maxint=3, eq=False, obj_wt=None, caps=False):
+def ebv_problem(kind, ebv, nobj=1, ndecn=None, con=False, maxint=3, eq=False, obj_wt=None, caps=False, space=None):
     """Small EBV selection problem in one of the four encodings (kind: subset/real/integer/binary)."""
     from pybrops.breed.prot.sel.prob.EstimatedBreedingValueSelectionProblem import (
         EstimatedBreedingValueSubsetSelectionProblem as PS, EstimatedBreedingValueRealSelectionProblem as PR,
@@ -132,8 +132,10 @@ def ebv_problem(kind, ebv, nobj=1, ndecn=None, con=False, maxint=3, eq=False, ob
         kw.update(neqcv=1, eqcv_wt=numpy.array([1.0]), eqcv_trans=eqtr)
     if kind == "subset":
         k = ndecn or max(1, n // 3)
-        return PS(ebv=ebv, ndecn=k, decn_space=numpy.arange(n), decn_space_lower=numpy.repeat(0, k),
-                  decn_space_upper=numpy.repeat(n - 1, k), nobj=nobj, obj_trans=tr, **kw)
+        # candidate set: all individuals in index order, or an arbitrary (unsorted, partial) set of them
+        cand = numpy.arange(n) if space is None else numpy.array(space, dtype=int)
+        return PS(ebv=ebv, ndecn=k, decn_space=cand, decn_space_lower=numpy.repeat(int(cand.min()), k),
+                  decn_space_upper=numpy.repeat(int(cand.max()), k), nobj=nobj, obj_trans=tr, **kw)
     if kind == "real":
         return PR(ebv=ebv, ndecn=n, decn_space=numpy.stack([numpy.zeros(n), numpy.ones(n)]), decn_space_lower=numpy.zeros(n),
                   decn_space_upper=numpy.ones(n), nobj=nobj, obj_trans=tr, **kw)
